@@ -761,3 +761,26 @@ Proof.
   exists {| lp := 1500000000; lq := 1; lburst := 1; linf := false |}.
   eexists. eexists. exists 0, 0. repeat split; try (cbn; lia); vm_compute; reflexivity.
 Qed.
+
+(* ------------------------------------------------------------------ prefetched bytes in front *)
+(* the buffered bytes are handed out completely before any Read reaches the throttled conn, and
+   never more than were buffered *)
+Lemma cx_plan_buffer lens : forall b, 0 <= b -> Forall (fun l => 0 <= l) lens ->
+  0 <= from_buffer (cx_plan b lens) <= b /\
+  (forall pre l post, cx_plan b lens = pre ++ inr l :: post -> from_buffer pre = b /\ from_buffer post = 0).
+Proof.
+  induction lens as [|l lens IH]; intros b Hb Hl; cbn [cx_plan].
+  - split; [cbn; lia|]. intros pre l post H. destruct pre; discriminate.
+  - inversion Hl as [|? ? Hl0 Hl']; subst.
+    destruct (Z.ltb_spec 0 b) as [Hpos|Hz].
+    + cbn zeta. pose proof (zmin_le l b) as [Hm1 Hm2]. assert (0 <= zmin l b) by (apply zmin_glb; lia).
+      destruct (IH (b - zmin l b) ltac:(lia) Hl') as [Hs Hsplit]. split; [cbn [from_buffer fold_right]; unfold from_buffer in Hs; lia|].
+      intros pre l' post H'. destruct pre as [|x pre]; [discriminate|]. cbn in H'. injection H' as Hx Hrest. subst x.
+      destruct (Hsplit pre l' post Hrest) as [A B]. split; [cbn [from_buffer fold_right]; unfold from_buffer in A; lia|exact B].
+    + assert (b = 0) as -> by lia. destruct (IH 0 ltac:(lia) Hl') as [Hs Hsplit].
+      split; [cbn [from_buffer fold_right]; unfold from_buffer in Hs; lia|].
+      intros pre l' post H'. destruct pre as [|x pre].
+      * cbn in H'. injection H' as Hx Hrest. subst. split; [reflexivity|]. unfold from_buffer in *. lia.
+      * cbn in H'. injection H' as Hx Hrest. subst x. destruct (Hsplit pre l' post Hrest) as [A B].
+        split; [cbn [from_buffer fold_right]; unfold from_buffer in A; exact A|exact B].
+Qed.
